@@ -12,6 +12,7 @@
 #include <algorithm>
 #include <cmath>
 #include <cstring>
+#include <thread>
 
 #include "arena.hpp"
 #include "harness.hpp"
@@ -361,6 +362,59 @@ std::vector<Sub> vh_subs() {
           return c.failf("to_znx64_wide_predhalf: reim_to_znx64[%s] m=%llu divisor=2^%d log2bound=63: out[%llu]=%lld for x=%a, x/d=%a (%.20g): not within 1/2 (expected %lld)",
                          vn[variant], (ull)m, j, (ull)i, (ll)o[i], x[i], z, z, (ll)lo);
       }
+    };
+    subs.push_back(s);
+  }
+
+  // reim_to_znx64_simple called several times in a row on one (fresh) thread with two dimensions, two divisors and both bound classes:
+  // the contract of each call is the one of its own arguments, whatever table an earlier call left behind.  The sequence runs on a
+  // thread of its own, so the front end's thread-local state starts empty and the case replays exactly.
+  {
+    Sub s;
+    s.name = "to_znx64_simple_seq";
+    s.fields = {{"kA", 0, 12}, {"kB", 0, 12}, {"len", 2, 6}, {"lf", 5, 8}, {"lw", 1, 4}, {"jj", 0, 45}, {"fam", 0, F_COUNT - 1}, {"seed", 0, INT64_MAX - 1}};
+    s.run = [](const Vals& v, Ctx& c) {
+      const uint64_t kk[2] = {(uint64_t)v[0], (uint64_t)v[1]};
+      const int len = (int)v[2], Lf = LB_TO[v[3]], Lw = LB_TO[v[4]];  // Lf in {50,49,30,10}, Lw in {63,52,51,64}
+      const int jd[2] = {map_j(v[5], kk[0]), map_j((v[5] * 7 + 3) % 46, kk[0])};
+      const int fam = (int)v[6];
+      std::string err, trace;
+      bool cross = false;
+      std::thread th([&] {
+        Rng r((uint64_t)v[7]);
+        int prevL = -1; uint64_t prevk = ~0ull;
+        for (int t = 0; t < len && err.empty(); ++t) {
+          const uint64_t k = kk[r.below(2)], m = 1ull << k, n = 2 * m;
+          const int L = r.below(2) ? Lw : Lf, j = jd[r.below(3) == 0];
+          if (prevL >= 0 && (k != prevk) && ((L > 50) != (prevL > 50))) cross = true;
+          prevL = L; prevk = k;
+          const Dom D{L <= 50 ? L : (L < 52 ? L : 52), false, 0};
+          std::vector<double> x(n);
+          std::vector<int64_t> o(n, 0x5a5a5a5a5a5a5a5all);
+          for (uint64_t i = 0; i < n; ++i) x[i] = std::ldexp(gen_y(r, fam, D), j);
+          char buf[96];
+          snprintf(buf, sizeof buf, " (m=%llu,d=2^%d,log2bound=%d)", (ull)m, j, L);
+          trace += buf;
+          reim_to_znx64_simple((uint32_t)m, std::ldexp(1.0, j), (uint32_t)L, o.data(), x.data());
+          for (uint64_t i = 0; i < n; ++i) {
+            double z = std::ldexp(x[i], -j);
+            int64_t lo, hi;
+            if (!nearest_ok(z, o[i], &lo, &hi)) {
+              char e[400];
+              snprintf(e, sizeof e, "call %d of the sequence%s: out[%llu]=%lld for x/d=%a (%.20g): not within 1/2 (expected %lld)", t + 1, trace.c_str(), (ull)i, (ll)o[i], z, z, (ll)lo);
+              err = e;
+              break;
+            }
+          }
+        }
+      });
+      th.join();
+      c.cls("fn:to_znx64");
+      c.cls("to_znx64:simple sequence");
+      if (cross) c.cls("to_znx64:simple sequence changes dimension and bound class together");
+      c.nontrivial = kk[0] != kk[1];
+      c.notef("reim_to_znx64_simple sequence:%s", trace.c_str());
+      if (!err.empty()) return c.failf("to_znx64_simple_seq: %s", err.c_str());
     };
     subs.push_back(s);
   }
